@@ -39,18 +39,26 @@ func SentinelMiddleware(opts ...Option) ghttp.HandlerFunc {
 		defer entry.Exit()
 
 		// goframe keeps one error per request. One that an earlier middleware has noted there is not the
-		// handler's: it is set aside while the handler runs, so that what is found afterwards is the
-		// handler's own, and put back when the handler has left none.
-		earlier := r.GetError()
-		if earlier != nil {
-			r.SetError(nil)
+		// handler's. While the handler runs a stand-in takes its place, which reads like it (message, Unwrap,
+		// and through that error codes and errors.Is / As) but is a value of its own: if it is still there
+		// afterwards the handler has left no error, and the earlier one is put back; anything else in the
+		// slot - also the very same error value - is the handler's.
+		var standIn *earlierError
+		if earlier := r.GetError(); earlier != nil {
+			standIn = &earlierError{earlier}
+			r.SetError(standIn)
 		}
 		r.Middleware.Next()
 		// goframe keeps the error a handler returned (and a recovered handler panic) on the request
-		if err := r.GetError(); err != nil {
+		if err := r.GetError(); err != nil && (standIn == nil || err != error(standIn)) {
 			api.TraceError(entry, err)
-		} else if earlier != nil {
-			r.SetError(earlier)
+		} else if standIn != nil {
+			r.SetError(standIn.error)
 		}
 	}
 }
+
+// earlierError stands in for an error that was on the request before the entry existed, see SentinelMiddleware.
+type earlierError struct{ error }
+
+func (e *earlierError) Unwrap() error { return e.error }
